@@ -9,7 +9,7 @@ LEVEL_TEXT = ("All 28 graph-taking ODE entry points are called on every graph of
               "functions: the exhaustive object is the input shape, not a schedule.")
 LEVEL_NOTE = "solver accuracy is trusted up to the stated tolerances; short horizons (<=5 time units); graphs up to 4 (thorough: all shapes on 5) nodes; the direct array-argument models are reached through their *_from_graph wrappers and in C07/C19"
 RULE = "one evaluation = one call of one entry point; distinct = (entry point, rates, grid, return mode) per (graph, request); non-trivial = graph has an edge and the request infects somebody"
-BOUNDS = {"quick": "all graphs with >=1 edge on <=4 nodes + bull,P5,S5,C5; requests: default, rho in {0.05,0.2,0.5}, explicit sets |I0|<=2,|R0|<=1; 5 rate pairs; 3 time grids; both return modes",
+BOUNDS = {"quick": "all graphs with >=1 edge on <=4 nodes + bull,P5,S5,C5; requests: default, rho in {0.05,0.2,0.5}, explicit sets |I0|<=2,|R0|<=1; 5 rate pairs; 3 time grids; both return modes; the 22 direct model functions behind the wrappers called with the wrapper's state arrays and with optional arguments left at their documented defaults (grid 0..100 in 1001 points, return_full_data=False) or shifted (non-degenerate requests)",
           "thorough": "adds all 33 graph shapes with an edge on 5 nodes and |I0|<=3"}
 ASSUMPTIONS = ["documented return orders transcribed in eonmc/analytic_catalog.py (where wrapper and direct docstring disagree the direct model function's order is used)"]
 
